@@ -1,7 +1,7 @@
 (* C17 — Chunk unification aligns operands without changing values or inflating blocks.
    Statements only; proofs in theories/UnifyFacts.v.  One axis at a time:
    refines_b fine coarse = true  means rechunking coarse -> fine only SPLITS blocks. *)
-From DA Require Import PyBase Unify UnifyFacts.
+From DA Require Import PyBase Unify UnifyFacts UnifyDecide UnifyDecideFacts.
 Open Scope Z_scope.
 
 (* 'refine' policy (common_blockdim): the unified layout only splits every operand ... *)
@@ -64,6 +64,136 @@ Proof. vm_compute. reflexivity. Qed.
 Example C17_ex_nested : coarse_blockdim 0 [[12;12];[6;6;6;6];[24]] = UOk [12;12].
 Proof. vm_compute. reflexivity. Qed.
 
+(* ====================================================================================================== *)
+(* THE DECISION LAYER of unify_chunks_expr (model: theories/UnifyDecide.v, proofs: theories/UnifyDecideFacts.v).
+   unify_decide qcmp pick policy limit operands = Some chunkss  (None = the call raises), for known chunk sizes.
+   Oracles, universally quantified in every theorem: qcmp = every comparison between float costs
+   (nb * moved_fraction), pick = set-iteration tie-break of coarse_blockdim.  Model restrictions are listed at
+   the top of UnifyDecide.v.  wf_operand dim o = what callers establish: len(ind) = ndim, no repeated label in
+   one operand, non-empty strictly positive layouts adding up to the axis length, each axis has the length
+   dim(label) of its index or is a broadcast axis of length 1, itemsize >= 0. *)
+
+(* (T1) no invented layout: under every policy, limit and oracle, the layout decided for an index is the layout
+   some operand has on that index, or the common refinement (common_blockdim) of the layouts the operands have
+   on that index (label_dims: the distinct layouts, the broadcast sentinel (1,) removed when there are several) *)
+Theorem C17_decide_no_invented_layout :
+  forall qcmp pick pol limit ops R,
+  unify_decide qcmp pick pol limit ops = Some R ->
+  forall j c, In (j, c) R ->
+  operand_layout ops j c \/ common_blockdim (label_dims ops j) = UOk c.
+Proof. exact unify_decide_no_invented_layout. Qed.
+
+(* ... hence every non-broadcast operand axis finds a decided layout for its index, of its own total length *)
+Theorem C17_decide_total_length :
+  forall qcmp pick pol limit ops dim R,
+  Forall (wf_operand dim) ops ->
+  unify_decide qcmp pick pol limit ops = Some R ->
+  forall o a, In o ops -> In a (axes o) -> 1 < ax_size a ->
+  exists c, lookup (ax_label a) R = Some c /\ zsum c = ax_size a.
+Proof. exact unify_decide_total_length. Qed.
+
+(* (T2) THE GROWTH BOUND, any policy, any non-zero limit, any oracle.  The measure the code bounds:
+     target_bytes R o  = itemsize * prod over the axes n of o with shape[n] > 1 of max(R[ind[n]])
+     current_bytes o   = itemsize * prod over the same axes of max(o.chunks[n])
+   i.e. the byte size of the operand's LARGEST BLOCK after / before it is rechunked to the decided layouts (the
+   blocks of an array are the full product grid of its per-axis chunks, so the largest block is exactly the
+   product of the per-axis maxima; broadcast axes keep their single chunk of length 1).  This is exactly the
+   quantity of the property text: no operand's block grows beyond max(limit, its own largest block). *)
+Theorem C17_decide_growth_bound :
+  forall qcmp pick pol l ops dim R,
+  Forall (wf_operand dim) ops -> l <> 0 ->
+  unify_decide qcmp pick pol (Some l) ops = Some R ->
+  forall o, In o ops -> target_bytes R o <= Z.max l (current_bytes o).
+Proof. exact unify_decide_growth_bound. Qed.
+
+(* the hypothesis l <> 0 is forced by the code: `if limit and ...` treats the limit 0 as "no limit", so with
+   array.unify-chunks-limit = 0 the bound max(0, own largest block) = own largest block of the property text
+   FAILS: policy coarse, float64 operands chunked (2,2) and (1,1,1,1): the second one's blocks grow 8 -> 16 bytes.
+   Replayed on the real code (finding C17-L0). *)
+Theorem C17_decide_growth_bound_limit_zero_refuted :
+  exists ops dim R o, Forall (wf_operand dim) ops /\
+    unify_decide rat_cmp (fun _ => 0%nat) PCoarse (Some 0) ops = Some R /\ In o ops /\
+    target_bytes R o > Z.max 0 (current_bytes o).
+Proof. exact growth_bound_limit_zero_refuted. Qed.
+
+(* (T3) under `refine` every decided layout IS common_blockdim of the index' layouts, so C17_refine_only_splits,
+   C17_common_is_finest_refinement and C17_refine_no_growth above apply to it; and no block grows, limit or not *)
+Theorem C17_decide_refine_is_common :
+  forall qcmp pick limit ops dim R,
+  Forall (wf_operand dim) ops ->
+  unify_decide qcmp pick PRefine limit ops = Some R ->
+  forall j c, In (j, c) R -> common_blockdim (label_dims ops j) = UOk c.
+Proof. exact unify_decide_refine_is_common. Qed.
+
+Theorem C17_decide_refine_no_growth :
+  forall qcmp pick limit ops dim R,
+  Forall (wf_operand dim) ops ->
+  unify_decide qcmp pick PRefine limit ops = Some R ->
+  forall o, In o ops -> target_bytes R o <= current_bytes o.
+Proof. exact unify_decide_refine_no_growth. Qed.
+
+(* (T4) the realignment choice does not commute with reversing every layout (for every tie-break p): float64
+   operands (1,3) and (2,2) realign to (1,3); reversed, (3,1) and (2,2) realign to (2,2), not to rev (1,3) = (3,1).
+   Cause: the last key of min(feasible) is the layout TUPLE, compared lexicographically.  Root cause of F33:
+   da.maximum(a@(1,3), b@(2,2))[::-1] advertises chunks ((3,1),) and optimizes to ((2,2),). *)
+Theorem C17_realign_choice_not_stable_under_reversal_refuted :
+  forall p : nat,
+  unify_decide rat_cmp (fun _ => p) PAuto None ex_rev_ops = Some [(0, [1; 3])] /\
+  unify_decide rat_cmp (fun _ => p) PAuto None (map rev_operand ex_rev_ops) = Some [(0, [2; 2])] /\
+  rev_map [(0, [1; 3])] <> [(0, [2; 2])].
+Proof. exact realign_choice_not_stable_under_reversal. Qed.
+
+(* the set-iteration tie-break of coarse_blockdim (oracle `pick`) is IRRELEVANT for strictly positive layouts:
+   whichever minimal-length candidate min(non_trivial_dims, key=len) returns, the result is the same (two distinct
+   minimal-length layouts can never both be refined by all others).  coarse_cands ds = the minimal-length
+   non-trivial layouts; it is non-empty whenever the branch is reached (coarse_cands_nonempty). *)
+Theorem C17_coarse_tie_break_irrelevant :
+  forall p q ds, Forall pos_layout ds ->
+  (p < length (coarse_cands ds))%nat -> (q < length (coarse_cands ds))%nat ->
+  coarse_blockdim p ds = coarse_blockdim q ds.
+Proof. exact coarse_blockdim_pick_irrelevant. Qed.
+
+(* the hypotheses are satisfiable on non-trivial inputs; every branch of the decision is exercised *)
+Definition C17_ex_dim (j : Z) : Z := if j =? 0 then 16 else 16.
+(* a heavy 16x16 float64 panel with fine chunks and a light 16-vector holding the coarse layout of index 0 *)
+Definition C17_ex_panel : list operand :=
+  [mkop 1 [0; 1] [[2;2;2;2;2;2;2;2]; [4;4;4;4]] [16; 16] 2048 8; mkop 2 [0] [[8; 8]] [16] 128 8].
+Example C17_ex_wf : forallb (wf_operand_b C17_ex_dim) C17_ex_panel = true.
+Proof. vm_compute. reflexivity. Qed.
+(* auto: merging the panel up to (8,8) would move 1536 bytes > 4 * 128 anchored bytes -> REFUSED, refined *)
+Example C17_ex_refused :
+  unify_decide rat_cmp (fun _ => 0%nat) PAuto None C17_ex_panel = Some [(1, [4;4;4;4]); (0, [2;2;2;2;2;2;2;2])].
+Proof. vm_compute. reflexivity. Qed.
+(* coarse: always merges ... *)
+Example C17_ex_coarse :
+  unify_decide rat_cmp (fun _ => 0%nat) PCoarse None C17_ex_panel = Some [(1, [4;4;4;4]); (0, [8; 8])].
+Proof. vm_compute. reflexivity. Qed.
+(* ... unless the merged block (8*4*8 = 256 bytes) exceeds the limit: the size guard falls back to the refinement *)
+Example C17_ex_guard :
+  unify_decide rat_cmp (fun _ => 0%nat) PCoarse (Some 100) C17_ex_panel = Some [(1, [4;4;4;4]); (0, [2;2;2;2;2;2;2;2])]
+  /\ unify_decide rat_cmp (fun _ => 0%nat) PCoarse (Some 256) C17_ex_panel = Some [(1, [4;4;4;4]); (0, [8; 8])].
+Proof. split; vm_compute; reflexivity. Qed.
+(* realignment of interleaved layouts: x + roll(x, 1) realigns to x's uniform grid, not to the refinement *)
+Example C17_ex_realign :
+  unify_decide rat_cmp (fun _ => 0%nat) PAuto None
+    [mkop 1 [0] [[4;4;4]] [12] 96 8; mkop 2 [0] [[1;4;4;3]] [12] 96 8] = Some [(0, [4;4;4])]
+  /\ common_blockdim [[4;4;4]; [1;4;4;3]] = UOk [1;3;1;3;1;3].
+Proof. split; vm_compute; reflexivity. Qed.
+Example C17_ex_tie_break :
+  length (coarse_cands [[1; 3]; [2; 2]; [4]]) = 2%nat /\
+  coarse_blockdim 0 [[1; 3]; [2; 2]; [4]] = UOk [1; 1; 2] /\ coarse_blockdim 1 [[1; 3]; [2; 2]; [4]] = UOk [1; 1; 2].
+Proof. repeat split; vm_compute; reflexivity. Qed.
+Example C17_ex_growth_bound_applies :
+  forall o, In o C17_ex_panel ->
+  target_bytes [(1, [4;4;4;4]); (0, [8; 8])] o <= Z.max 256 (current_bytes o).
+Proof.
+  apply (C17_decide_growth_bound rat_cmp (fun _ => 0%nat) PCoarse 256 C17_ex_panel C17_ex_dim).
+  - apply Forall_forall. intros o Ho. apply wf_operand_b_spec.
+    pose proof C17_ex_wf as H. rewrite forallb_forall in H. apply H. exact Ho.
+  - discriminate.
+  - vm_compute. reflexivity.
+Qed.
+
 Print Assumptions C17_refine_only_splits.
 Print Assumptions C17_common_is_finest_refinement.
 Print Assumptions C17_refine_no_growth.
@@ -71,3 +201,11 @@ Print Assumptions C17_refine_zero_chunk_refuted.
 Print Assumptions C17_coarse_is_operand_or_refinement.
 Print Assumptions C17_refinement_never_grows_blocks.
 Print Assumptions C17_moved_fraction_range.
+Print Assumptions C17_decide_no_invented_layout.
+Print Assumptions C17_decide_total_length.
+Print Assumptions C17_decide_growth_bound.
+Print Assumptions C17_decide_growth_bound_limit_zero_refuted.
+Print Assumptions C17_decide_refine_is_common.
+Print Assumptions C17_decide_refine_no_growth.
+Print Assumptions C17_realign_choice_not_stable_under_reversal_refuted.
+Print Assumptions C17_coarse_tie_break_irrelevant.
